@@ -184,6 +184,9 @@ pub enum Op {
     // ---- structured ----
     /// execute `then` iff the result of this thread's op #pc equals `eq`
     If { pc: u8, eq: u64, then: Box<Op> },
+    /// FAULT: a panic is raised and caught (`catch_unwind`) inside the model; `op` is performed by a
+    /// destructor while that panic unwinds (`std::thread::panicking()` is true)
+    Caught { op: Box<Op> },
     // ---- faults ----
     Panic { marker: u32 },
     /// exit the process with code 77 (crash fault)
@@ -214,7 +217,31 @@ impl Op {
             | Op::TlsWith { .. }
             | Op::LazyGet { .. } => true,
             Op::If { then, .. } => then.has_result(),
+            Op::Caught { op } => op.has_result(),
             _ => false,
+        }
+    }
+
+    /// the operation itself, without `If` / `Caught` wrappers
+    pub fn inner(&self) -> &Op {
+        let mut o = self;
+        loop {
+            match o {
+                Op::If { then, .. } => o = then,
+                Op::Caught { op } => o = op,
+                _ => return o,
+            }
+        }
+    }
+
+    pub fn is_caught(&self) -> bool {
+        let mut o = self;
+        loop {
+            match o {
+                Op::If { then, .. } => o = then,
+                Op::Caught { .. } => return true,
+                _ => return false,
+            }
         }
     }
 
@@ -232,6 +259,7 @@ impl Op {
             | Op::BlockOn { a, .. }
             | Op::AwaitY { a, .. } => Some(*a),
             Op::If { then, .. } => then.atomic_loc(),
+            Op::Caught { op } => op.atomic_loc(),
             _ => None,
         }
     }
@@ -321,6 +349,7 @@ impl fmt::Display for Op {
             Explore => write!(f, "explore"),
             SkipBranch => write!(f, "skip_branch"),
             If { pc, eq, then } => write!(f, "if(r{}=={}){{{}}}", pc, eq, then),
+            Caught { op } => write!(f, "caught_unwind{{{}}}", op),
             Panic { marker } => write!(f, "panic({})", marker),
             Crash => write!(f, "crash"),
         }
@@ -401,6 +430,7 @@ impl Program {
                 LazyGet { k } => (8, *k, false),
                 Park | Unpark { .. } => (9, 0, false),
                 If { then, .. } => return key(then),
+                Caught { op } => return key(op),
                 _ => return None,
             })
         }
